@@ -49,6 +49,8 @@ def special_modules():
         M("SpOfOf", "  T ::= SEQUENCE OF SET OF BOOLEAN"),
         M("SpOfOfOf", "  T ::= SEQUENCE OF SEQUENCE OF SEQUENCE OF INTEGER (0..7)"),
         M("SpOfOfNamed", "  T ::= SEQUENCE OF inner SEQUENCE OF INTEGER (0..7)\n  U ::= SEQUENCE { a T, b SET OF x SET (SIZE(2)) OF BOOLEAN }"),
+        M("SpOfOfStruct", "  T ::= SEQUENCE OF SEQUENCE OF SEQUENCE { a INTEGER }"),
+        M("SpOfStructOfStruct", "  T ::= SET OF SEQUENCE { a SEQUENCE OF CHOICE { b INTEGER, c NULL } }"),
         M("SpOfUnsTop", "  T ::= SET OF INTEGER (0..4294967295)"),
         M("SpOfUnsNested", "  T ::= SEQUENCE { a SET OF INTEGER (0..MAX), b BOOLEAN }"),
         M("SpOfUnsNested2", "  T ::= CHOICE { a [0] SEQUENCE OF INTEGER (0..4294967295), b [1] SEQUENCE { c SEQUENCE OF INTEGER (5..MAX) } }"),
